@@ -53,7 +53,7 @@ def main():
     print("functions defined: %d; entered by some quick check: %d; never entered: %d" % (len(uni), len(uni & seen), len(missing)))
     for f in sorted(per):
         print("%s (%d): %s" % (f, len(per[f]), ", ".join(per[f])))
-    json.dump({"defined": len(uni), "entered": len(uni & seen), "never_entered": {f: per[f] for f in sorted(per)}}, open(os.path.join(HERE, "evidence", "reachmap.json"), "w"), indent=1)
+    json.dump({"defined": len(uni), "entered": len(uni & seen), "never_entered": {f: per[f] for f in sorted(per)}}, open(os.path.join(HERE, "reports", "reachmap.json"), "w"), indent=1)
 
 
 main()
